@@ -11,7 +11,7 @@ import (
 )
 
 const maxInlineDepth = 4
-const maxInlineStmts = 40
+const maxInlineStmts = 25
 
 func (c *ExecCtx) evalCall(st *State, call *ast.CallExpr) []Val {
 	if st.dead {
@@ -56,6 +56,11 @@ func (c *ExecCtx) evalCall(st *State, call *ast.CallExpr) []Val {
 				recvExpr = f.X
 				if k, handled := c.syncCall(st, fn, f, call); handled {
 					return k
+				}
+				if fn != nil && c.isNoEffect(fn) {
+					sig := fn.Type().(*types.Signature)
+					c.evalArgs(st, call, sig, nil)
+					return c.freshResults(st, sig, fn, false)
 				}
 				rv := c.evalRecvFor(st, f, sel)
 				recv = &rv
@@ -149,10 +154,13 @@ func (c *ExecCtx) fieldAddr(st *State, e ast.Expr, cur Val) *Term {
 }
 
 func (c *ExecCtx) evalArgs(st *State, call *ast.CallExpr, sig *types.Signature, pre []Val) []Val {
+	if len(call.Args) == 0 && sig.Params().Len() > 0 && !sig.Variadic() {
+		return nil
+	}
 	u := c.u
 	np := sig.Params().Len()
 	var out []Val
-	if len(call.Args) == 1 && np > 1 {
+	if tup, isTuple := c.typeOfArg0(call).(*types.Tuple); len(call.Args) == 1 && np > 1 && isTuple && tup.Len() > 1 {
 		// f(g()) with multi-value g
 		vals := c.evalMulti(st, call.Args[0], np)
 		for i := 0; i < np; i++ {
@@ -378,10 +386,10 @@ func (c *ExecCtx) evalBuiltin(st *State, name string, call *ast.CallExpr) []Val 
 			cp := n
 			if len(call.Args) > 2 {
 				cp = c.eval(st, call.Args[2]).T
-				if u.sweep {
+				if c.sweepOn() {
 					u.oblige(st, "make", And(Ge(n, IntLit(0)), Le(n, cp)), call.Pos(), "make: 0 <= len <= cap")
 				}
-			} else if u.sweep {
+			} else if c.sweepOn() {
 				u.oblige(st, "make", Ge(n, IntLit(0)), call.Pos(), "make: len >= 0")
 			}
 			es := c.sortOfType(t.Elem())
@@ -547,7 +555,9 @@ func (c *ExecCtx) reachPanic(st *State, pos token.Pos, what string) {
 		}
 		goal = Or(alts...)
 	}
-	u.oblige(st, "unreachable", goal, pos, what+" must be unreachable")
+	if c.sweepOn() || c.depth == 0 {
+		u.oblige(st, "unreachable", goal, pos, what+" must be unreachable")
+	}
 	st.dead = true
 }
 
@@ -596,6 +606,14 @@ func (c *ExecCtx) dispatch(st *State, fn *types.Func, recv *Val, args []Val, pos
 	}
 	// 4. unknown: havoc
 	return c.havocCall(st, fn, recv, args, sig, pos)
+}
+
+func (c *ExecCtx) isNoEffect(fn *types.Func) bool {
+	e := c.u.eng
+	if fs := e.specs.Funcs[funcKey(fn)]; fs != nil && fs.NoEffect {
+		return true
+	}
+	return fn.Pkg() != nil && e.specs.PkgModes[fn.Pkg().Path()] == "noeffect"
 }
 
 func hasRecvTypeParams(fd *ast.FuncDecl) bool {
@@ -665,6 +683,11 @@ func (c *ExecCtx) resultNilFacts(st *State, t *Term, rt types.Type, fn *types.Fu
 		return
 	}
 	switch unalias(rt).Underlying().(type) {
+	case *types.Signature:
+		// func values returned by dependencies (cancel funcs, ...) are non-nil
+		if fn != nil && !inModule(fn.Pkg()) {
+			st.assumeT(Ne(t, IntLit(0)))
+		}
 	case *types.Pointer, *types.Map:
 		c.assumeAllocated(st, t)
 		if fn == nil {
@@ -708,7 +731,7 @@ func (c *ExecCtx) havocHeaps(st *State, fn *types.Func, recv *Val, args []Val) {
 			if v.Ty == nil {
 				return
 			}
-			if typeReachesModule(v.Ty, map[types.Type]bool{}) {
+			if typeHasFunc(v.Ty, map[types.Type]bool{}) {
 				reach = true
 			}
 		}
@@ -726,12 +749,34 @@ func (c *ExecCtx) havocHeaps(st *State, fn *types.Func, recv *Val, args []Val) {
 			return
 		}
 	}
+	// which heaps can the callee reach from its receiver and arguments?
+	reach := newReach(u.eng.tm)
+	if fn != nil || recv != nil || len(args) > 0 {
+		if recv != nil {
+			reach.add(recv.Ty)
+		}
+		for _, a := range args {
+			reach.add(a.Ty)
+		}
+		if fn != nil {
+			// results may alias anything reachable; globals of the callee's package
+			reach.addPkgGlobals(fn.Pkg())
+		}
+	} else {
+		reach.everything = true
+	}
+	if fn == nil {
+		reach.everything = true
+	}
 	for h, cur := range u.initHeap {
 		if _, ok := st.heaps[h]; !ok {
 			st.heaps[h] = cur
 		}
 	}
 	for h, cur := range st.heaps {
+		if !reach.everything && !reach.heap(h) {
+			continue
+		}
 		if h == "$alloc" {
 			na := u.fresh("alloc", cur.Sort)
 			x := Sym("x!a", SInt)
@@ -870,14 +915,29 @@ func (c *ExecCtx) dynamicCall(st *State, fv Val, call *ast.CallExpr) []Val {
 			return c.inlineLit(st, cl, args, call.Pos())
 		}
 	}
-	if u.sweep && fv.T.Sort == SInt {
+	if c.sweepOn() && fv.T.Sort == SInt {
 		u.oblige(st, "fncall", Ne(fv.T, IntLit(0)), call.Pos(), "call of nil func value")
 	}
 	// role contract for func-typed parameters/fields?
-	if name := calleeName(call); name != "" && c.spec != nil {
-		if rs := u.eng.specs.Funcs[c.spec.Key+"$role:"+name]; rs != nil {
-			return c.applyContract(st, rs, nil, nil, args, call.Pos())
+	if name := calleeName(call); name != "" {
+		root := c
+		for root.spec == nil && root.parent != nil {
+			root = root.parent
 		}
+		if root.spec != nil {
+			if rs := u.eng.specs.Funcs[strings.SplitN(root.spec.Key, "$lit", 2)[0]+"$role:"+name]; rs != nil {
+				return c.applyRole(st, rs, sig, args, call.Pos())
+			}
+		}
+	}
+	if n, ok := unalias(fv.Ty).(*types.Named); ok && n.Obj() != nil && !inModule(n.Obj().Pkg()) {
+		// func type defined by a dependency (context.CancelFunc, ...): the
+		// value comes from there; it cannot touch repository state
+		u.eng.abstracted["extfunc:"+n.Obj().Name()] = true
+		for _, a := range args {
+			c.havocArgContents(st, a)
+		}
+		return c.freshResults(st, sig, nil, false)
 	}
 	return c.havocCall(st, nil, nil, args, sig, call.Pos())
 }
@@ -895,7 +955,7 @@ func calleeName(call *ast.CallExpr) string {
 // inlineFunc executes the callee's body in the caller's state.
 func (c *ExecCtx) inlineFunc(st *State, fi *FuncInfo, recv *Val, args []Val, pos token.Pos) []Val {
 	u := c.u
-	sub := &ExecCtx{u: u, info: fi.Pkg.TypesInfo, pkg: fi.Pkg, fn: fi, depth: c.depth + 1, parent: c, oldState: c.oldState}
+	sub := &ExecCtx{u: u, info: fi.Pkg.TypesInfo, pkg: fi.Pkg, fn: fi, depth: c.depth + 1, parent: c, oldState: c.oldState, inlinedFunc: true}
 	sig := fi.Obj.Type().(*types.Signature)
 	// bind receiver and params
 	if fi.Decl.Recv != nil && len(fi.Decl.Recv.List) > 0 && len(fi.Decl.Recv.List[0].Names) > 0 && recv != nil {
@@ -1257,4 +1317,197 @@ func (c *ExecCtx) sortSort(st *State, call *ast.CallExpr) bool {
 	// Less(b,a) is false: its postcondition with result=true cannot hold
 	st.assumeT(Forall([]*Term{a, b}, Imp(And(Ge(a, IntLit(0)), Lt(a, b), Lt(b, n)), Not(And(ens...)))))
 	return true
+}
+
+
+// applyRole applies the contract of a func-typed parameter (assumed: the
+// caller of the function under contract is responsible for it).
+func (c *ExecCtx) applyRole(st *State, fs *FuncSpec, sig *types.Signature, args []Val, pos token.Pos) []Val {
+	u := c.u
+	u.eng.externUsed["role contract (assumed): "+shortKey(fs.Key)] = true
+	binds := c.bindHeader(fs, nil, args)
+	env := &SpecEnv{c: c, fs: fs, binds: binds}
+	pre := st.fork()
+	for _, cl := range fs.Requires {
+		t := env.evalBool(st, pre, cl.Expr, cl.Where)
+		u.oblige(st, "pre", t, pos, fmt.Sprintf("precondition of %s: %s", shortKey(fs.Key), cl.Src))
+	}
+	if !fs.Pure {
+		if fs.HasModifies && !fs.ModifiesAll {
+			for _, m := range fs.Modifies {
+				env.havocTarget(st, m.Expr, m.Where)
+			}
+		} else {
+			c.havocHeaps(st, nil, nil, args)
+		}
+	}
+	results := c.freshResults(st, sig, nil, false)
+	env.bindResults(results)
+	for _, cl := range fs.Ensures {
+		st.assumeT(env.evalBool(st, pre, cl.Expr, cl.Where))
+	}
+	return results
+}
+
+
+func (c *ExecCtx) typeOfArg0(call *ast.CallExpr) types.Type {
+	if len(call.Args) == 0 {
+		return types.Typ[types.Invalid]
+	}
+	return c.typeOf(call.Args[0])
+}
+
+
+// typeHasFunc: does a value of this type (shallowly: through slices, arrays,
+// maps, pointers and struct fields) carry a func value that a dependency
+// could call back into repository code with?
+func typeHasFunc(t types.Type, seen map[types.Type]bool) bool {
+	t = unalias(t)
+	if seen[t] {
+		return false
+	}
+	seen[t] = true
+	if n, ok := t.(*types.Named); ok && n.Obj() != nil && n.Obj().Pkg() != nil && !inModule(n.Obj().Pkg()) {
+		// values of dependency-defined named types do not hold repository closures
+		// unless they are plain func types
+		if _, isSig := n.Underlying().(*types.Signature); !isSig {
+			return false
+		}
+	}
+	switch u := t.Underlying().(type) {
+	case *types.Signature:
+		return true
+	case *types.Pointer:
+		return typeHasFunc(u.Elem(), seen)
+	case *types.Slice:
+		return typeHasFunc(u.Elem(), seen)
+	case *types.Array:
+		return typeHasFunc(u.Elem(), seen)
+	case *types.Map:
+		return typeHasFunc(u.Elem(), seen)
+	case *types.Struct:
+		for i := 0; i < u.NumFields(); i++ {
+			if typeHasFunc(u.Field(i).Type(), seen) {
+				return true
+			}
+		}
+	}
+	return false
+}
+
+
+// reachSet: the field heaps / map heaps / cell heaps reachable from a set of
+// types (transitively through fields, elements and pointers). Func values
+// and repository-defined interfaces reach everything.
+type reachSet struct {
+	tm         *TypeMap
+	everything bool
+	heaps      map[string]bool // exact heap names
+	prefixes   map[string]bool // "H.<struct>." prefixes
+	seen       map[string]bool
+}
+
+func newReach(tm *TypeMap) *reachSet {
+	return &reachSet{tm: tm, heaps: map[string]bool{"$alloc": true}, prefixes: map[string]bool{}, seen: map[string]bool{}}
+}
+
+func (r *reachSet) heap(h string) bool {
+	if r.heaps[h] {
+		return true
+	}
+	if strings.HasPrefix(h, "G.") || strings.HasPrefix(h, "C.") {
+		return true
+	}
+	for p := range r.prefixes {
+		if strings.HasPrefix(h, p) {
+			return true
+		}
+	}
+	return false
+}
+
+func (r *reachSet) addPkgGlobals(p *types.Package) {
+	if p == nil || !inModule(p) {
+		return
+	}
+	for _, n := range p.Scope().Names() {
+		if v, ok := p.Scope().Lookup(n).(*types.Var); ok {
+			r.add(v.Type())
+		}
+	}
+}
+
+func (r *reachSet) add(t types.Type) {
+	if t == nil || r.everything {
+		return
+	}
+	t = unalias(t)
+	k := typeKey(t)
+	if r.seen[k] {
+		return
+	}
+	r.seen[k] = true
+	if n, ok := t.(*types.Named); ok && n.Obj() != nil {
+		if n.Obj().Pkg() == nil {
+			return // error
+		}
+		if !inModule(n.Obj().Pkg()) {
+			// dependency-defined type: opaque, does not reach repository
+			// structs; but exported fields of transparent structs do
+			if st, ok := n.Underlying().(*types.Struct); ok && structIsTransparent(n, st) {
+				r.prefixes["H."+r.tm.canonStruct(n, st)+"."] = true
+				for i := 0; i < st.NumFields(); i++ {
+					r.add(st.Field(i).Type())
+				}
+			}
+			if _, ok := n.Underlying().(*types.Signature); ok {
+				return
+			}
+			switch n.Underlying().(type) {
+			case *types.Slice, *types.Map, *types.Pointer, *types.Array:
+			default:
+				return
+			}
+		}
+	}
+	switch u := t.Underlying().(type) {
+	case *types.Basic:
+	case *types.Pointer:
+		if _, st := structOf(u.Elem()); st == nil {
+			srt := r.tm.SortOf(u.Elem())
+			r.heaps["P."+sanitize(srt)] = true
+		}
+		r.add(u.Elem())
+	case *types.Slice:
+		r.add(u.Elem())
+	case *types.Array:
+		r.add(u.Elem())
+	case *types.Chan:
+		r.add(u.Elem())
+	case *types.Map:
+		ks, vs := r.tm.SortOf(u.Key()), r.tm.SortOf(u.Elem())
+		base := "M." + sanitize(ks) + "." + sanitize(vs)
+		r.heaps[base+".has"], r.heaps[base+".val"], r.heaps[base+".len"] = true, true, true
+		r.add(u.Key())
+		r.add(u.Elem())
+	case *types.Struct:
+		if n, ok := t.(*types.Named); ok {
+			r.prefixes["H."+r.tm.canonStruct(n, u)+"."] = true
+			r.prefixes["HG."+shortTypeName(n)+"."] = true
+		}
+		for i := 0; i < u.NumFields(); i++ {
+			r.add(u.Field(i).Type())
+		}
+	case *types.Signature:
+		r.everything = true
+	case *types.Interface:
+		if n, ok := t.(*types.Named); ok && n.Obj() != nil && n.Obj().Pkg() != nil && inModule(n.Obj().Pkg()) {
+			r.everything = true
+		}
+		if _, ok := t.(*types.Named); !ok && u.NumMethods() > 0 {
+			r.everything = true
+		}
+	case *types.TypeParam:
+		r.everything = true
+	}
 }
